@@ -571,6 +571,45 @@ func init() {
 		g2 := settleGoroutines()
 		fd1 := fdCount()
 		cpu := int64(0)
+		if mode == "cut-open" || mode == "garbage-open" {
+			// n logical connections are OPEN (their targets idle) when the physical session ends abruptly: every one of them must be
+			// released - each target sees its connection closed - and nothing may stay behind
+			var apps, tcs []net.Conn
+			for i := 0; i < n; i++ {
+				app, tc, err := w.dialApp(5 * time.Second)
+				if err != nil {
+					break
+				}
+				if _, ok := echoOnce(app, tc, []byte(fmt.Sprintf("open-%d", i)), 3*time.Second); ok {
+					apps, tcs = append(apps, app), append(tcs, tc)
+				}
+			}
+			if relay != nil {
+				if mode == "garbage-open" {
+					relay.mu.Lock()
+					for _, c := range relay.conns {
+						c.Write([]byte{9, 9, 9, 9, 9, 9, 9, 9, 9, 9, 9, 9})
+					}
+					relay.mu.Unlock()
+					time.Sleep(30 * time.Millisecond)
+				}
+				relay.cut()
+			}
+			released := 0
+			for _, tc := range tcs {
+				tc.SetReadDeadline(time.Now().Add(2 * time.Second))
+				if _, err := tc.Read(make([]byte, 1)); err == io.EOF || (err != nil && !os.IsTimeout(err)) {
+					released++
+				}
+				tc.Close()
+			}
+			for _, app := range apps {
+				app.Close()
+			}
+			g3 := settleGoroutines()
+			fd3 := fdCount()
+			return []Tok{TW("g"), TIn(g0), TIn(g1), TIn(g3), TW("fd"), TIn(fd0), TIn(fd3), TW("cpu"), TI(0), TW("ok"), TIn(okc), TW("released"), TIn(released), TW("of"), TIn(len(tcs))}
+		}
 		if mode == "cut" || mode == "garbage" {
 			if relay != nil {
 				if mode == "garbage" {
